@@ -134,5 +134,6 @@ def result_rep(out_classes, refview):
     if needs_rho:
         R.append((X * X + Y * Y).rel(">"))
     if len(out_classes) >= 3 and out_classes[2] is TemporalTau:
-        R.append(A.of(refview[3]).rel(">="))
+        # strictly positive time: at t = 0 the sign conventions of copysign(+-0) decide, a singular stratum (DESIGN C13)
+        R.append(A.of(refview[3]).rel(">"))
     return R
